@@ -475,11 +475,11 @@ impl Sut for St1 {
 fn main() {
     let ctx = Ctx::from_args("C19");
     ctx.level("model_checking");
-    ctx.rule("E1: 1-D meshes with 2..6 nodes and EVERY spacing word over {1/4,1/2,1,2}, 7..12 nodes with every <=2-deviation word from uniform, a second family with spacings {3/4,3/2,1} (rounding tolerance), 1..4 variables, two integer-valued data patterns: every access path, interpolation at every node / mid-cell / quarter / eighth points (never within 1e-6 of a node except at it), trapezium = cell sum and exact on linear data, output->read round trip at precisions 3, 6, 12; 2-D meshes over all pairs of node counts 2..5 with three spacing words each: every access path, both cross-section orientations, var_as_matrix, apply, assign, trapezium/square_trapezium = cell sums, exact on bilinear data. E2: BFS over write histories (set_nodes_vars, index writes, assign, apply) on 2x3 and 3x2 meshes, the real object rebuilt by replaying each history, all views re-checked in every state. Non-trivial: non-uniform grids, interpolation at the last node, non-square 2-D meshes.");
+    ctx.rule("E1: 1-D meshes with 2..6 nodes and EVERY spacing word over {1/4,1/2,1,2} (2..7 nodes quick / 2..9 thorough), up to 12 nodes with every <=2 (quick) / <=3 (thorough) deviation word from uniform, a second family with spacings {3/4,3/2,1} (rounding tolerance), 1..4 variables, two integer-valued data patterns: every access path, interpolation at every node / mid-cell / quarter / eighth points (never within 1e-6 of a node except at it), trapezium = cell sum and exact on linear data, output->read round trip at precisions 3, 6, 12; 2-D meshes over all pairs of node counts 2..8 (quick) / 2..12 (thorough) with three spacing words each: every access path, both cross-section orientations, var_as_matrix, apply, assign, trapezium/square_trapezium = cell sums, exact on bilinear data. E2: BFS over write histories (set_nodes_vars, index writes, assign, apply) on 2x3 and 3x2 meshes, the real object rebuilt by replaying each history, all views re-checked in every state. Non-trivial: non-uniform grids, interpolation at the last node, non-square 2-D meshes.");
     ctx.assume("nodal data are integer-valued / dyadic so that f64 results are exact on power-of-two grids");
     ctx.require(&["non-uniform grid", "interpolations at a node", "interpolations inside a cell", "non-square 2-D mesh", "non-square mesh state", "apply in a history", "round trip", "index write after interpolation queries", "1-D history of >= 2 writes"]);
     // 1-D exhaustive spacing words
-    for n in 2..=6usize {
+    for n in 2..=ctx.pick(7, 9) {
         let words = pow(4, (n - 1) as u32);
         ctx.lattice(
             &format!("Mesh1D: {} nodes, every spacing word over {{1/4,1/2,1,2}} x nvars 1..4 x 2 data patterns", n),
@@ -511,10 +511,11 @@ fn main() {
         );
     }
     // 7..12 nodes: <= 2 deviations from the uniform word
-    for n in 7..=12usize {
-        let devs = deviations(n - 1, 3, 2);
+    let ndev = ctx.pick(2, 3);
+    for n in ctx.pick(8, 10)..=12usize {
+        let devs = deviations(n - 1, 3, ndev);
         ctx.lattice(
-            &format!("Mesh1D: {} nodes, <= 2 deviations from uniform spacing 1 with letters {{1/4,1/2,2}}", n),
+            &format!("Mesh1D: {} nodes, <= {} deviations from uniform spacing 1 with letters {{1/4,1/2,2}}", n, ndev),
             devs.len() as u64,
             |idx| format!("{:?}", devs[idx as usize]),
             |idx, acc| {
@@ -582,9 +583,10 @@ fn main() {
     let _ = std::fs::remove_dir_all(&dir);
     // 2-D
     let words3 = |n: usize, w: usize| -> Vec<f64> { (0..n - 1).map(|k| SP[(k * (w + 1) + w) % 4]).collect() };
+    let kk = ctx.pick(7, 11) as u64; // node counts 2..8 (quick) / 2..12 (thorough) per direction
     ctx.lattice(
-        "Mesh2D: node counts (2..5)^2 x 3 spacing words per direction x nvars 1..3 x 2 data patterns",
-        16 * 9 * 6,
+        &format!("Mesh2D: node counts (2..{})^2 x 3 spacing words per direction x nvars 1..3 x 2 data patterns", kk + 1),
+        kk * kk * 9 * 6,
         |idx| format!("{}", idx),
         |idx, acc| {
             let mut r = idx;
@@ -596,8 +598,8 @@ fn main() {
             r /= 3;
             let wx = (r % 3) as usize;
             r /= 3;
-            let ny = 2 + (r % 4) as usize;
-            r /= 4;
+            let ny = 2 + (r % kk) as usize;
+            r /= kk;
             let nx = 2 + r as usize;
             if nx != ny {
                 acc.nontriv("non-square 2-D mesh");
